@@ -188,7 +188,22 @@ class SymReal:
         return SymReal(s)
 
     def log(self):
-        return SymReal(LOG(self.e))
+        # ln is not encoded: a fresh variable stands for ln(arg); the harness must relate the recorded
+        # arguments (ctx.logs) to each other (equal arguments -> equal logarithms)
+        ctx = Ctx.cur
+        if not hasattr(ctx, 'logs'):
+            ctx.logs = []
+        known = getattr(ctx, 'log_oracle', None)      # (R, L): the harness names ln(R) =: L
+        if known is not None:
+            ctx.nqueries += 1
+            r, _ = nra_check(list(ctx.pc) + [self.e != known[0]])
+            if r == z3.unsat:
+                ctx.logs.append((self.e, known[1]))
+                return SymReal(known[1])
+        ctx.fresh += 1
+        v = z3.Real('ln%d' % ctx.fresh)
+        ctx.logs.append((self.e, v))
+        return SymReal(v)
 
     def exp(self):
         return SymReal(EXP(self.e))
@@ -231,7 +246,76 @@ class RealArray(np.ndarray):
 def rarr(es, tag='float64'):
     a = np.empty(len(es), dtype=object)
     for i, e in enumerate(es):
-        a[i] = e if isinstance(e, SymReal) else SymReal(e)
+        a[i] = e if isinstance(e, (SymReal, Dual)) else SymReal(e)
     a = a.view(RealArray)
     a.tag = tag
     return a
+
+
+class Dual:
+    """Forward-mode derivative carrier: (value, d value / d input) as z3 Reals.  Comparisons use the value."""
+    __array_ufunc__ = None
+
+    def __init__(self, v, d):
+        self.v, self.d = v, d
+
+    @staticmethod
+    def lift(o):
+        if isinstance(o, Dual):
+            return o
+        r = _lr(o)
+        if r is None:
+            return None
+        return Dual(r, z3.RealVal(0))
+
+    def __add__(self, o):
+        o = Dual.lift(o)
+        return NotImplemented if o is None else Dual(self.v + o.v, self.d + o.d)
+    __radd__ = __add__
+
+    def __sub__(self, o):
+        o = Dual.lift(o)
+        return NotImplemented if o is None else Dual(self.v - o.v, self.d - o.d)
+
+    def __rsub__(self, o):
+        o = Dual.lift(o)
+        return NotImplemented if o is None else Dual(o.v - self.v, o.d - self.d)
+
+    def __mul__(self, o):
+        o = Dual.lift(o)
+        return NotImplemented if o is None else Dual(self.v * o.v, self.v * o.d + self.d * o.v)
+    __rmul__ = __mul__
+
+    def __truediv__(self, o):
+        o = Dual.lift(o)
+        if o is None:
+            return NotImplemented
+        ov = z3.simplify(o.v)
+        if not z3.is_rational_value(ov) or not z3.is_true(z3.simplify(o.d == 0)):
+            raise Inconclusive("Dual division by a non-constant")
+        return Dual(self.v / ov, self.d / ov)
+
+    def __neg__(self):
+        return Dual(-self.v, -self.d)
+
+    def __pow__(self, n):
+        r = Dual(z3.RealVal(1), z3.RealVal(0))
+        for _ in range(int(n)):
+            r = r * self
+        return r
+
+    def exp(self):
+        e = EXP(self.v)
+        return Dual(e, e * self.d)
+
+    def square(self):
+        return self * self
+
+    __lt__ = lambda s, o: RBool(s.v < Dual.lift(o).v)
+    __le__ = lambda s, o: RBool(s.v <= Dual.lift(o).v)
+    __gt__ = lambda s, o: RBool(s.v > Dual.lift(o).v)
+    __ge__ = lambda s, o: RBool(s.v >= Dual.lift(o).v)
+    __hash__ = None
+
+    def __float__(self):
+        raise Inconclusive("dual number realised as float")
